@@ -13,6 +13,8 @@ def run(tier, seed, replay=None):
     shutil.rmtree(wd, ignore_errors=True)
     lines, wd = subfam.run_family(ck, binary, "faults", n, seed, strict=True)
     shutil.rmtree(wd, ignore_errors=True)
+    lines, wd = subfam.run_family(ck, binary, "scoped", n, seed, strict=False)
+    shutil.rmtree(wd, ignore_errors=True)
     lines, wd = subfam.run_family(ck, binary, "mixed", n, seed, strict=False)
     subfam.quiescence_findings(ck, lines)
     shutil.rmtree(wd, ignore_errors=True)
